@@ -49,8 +49,31 @@ def sites_in(fn, qual):
     return out
 
 
+def identity_sites(fn, qual):
+    """`x is p` / `x is not p` where p is a parameter (or self.<param-like attribute>): equality is meant, cells read from
+    files are never the same object as an argument"""
+    a = fn.args
+    names = {x.arg for x in list(a.args) + list(a.kwonlyargs)} - {'self'}
+    out = []
+    for sub in ast.walk(fn):
+        if isinstance(sub, ast.Compare) and any(isinstance(o, (ast.Is, ast.IsNot)) for o in sub.ops):
+            for e in [sub.left] + list(sub.comparators):
+                if isinstance(e, ast.Name) and e.id in names and e.id in PARAMS:
+                    others = [x for x in [sub.left] + list(sub.comparators) if x is not e]
+                    if all(isinstance(x, ast.Constant) and x.value is None for x in others):
+                        continue          # `p is None` is the correct test for an omitted argument
+                    out.append((qual, e.id, ast.unparse(sub)))
+                if isinstance(e, ast.Attribute) and isinstance(e.value, ast.Name) and e.value.id == 'self' and e.attr in PARAMS:
+                    others = [x for x in [sub.left] + list(sub.comparators) if x is not e]
+                    if all(isinstance(x, ast.Constant) and x.value is None for x in others):
+                        continue
+                    out.append((qual, 'self.' + e.attr, ast.unparse(sub)))
+    return out
+
+
 def generate():
     rows = []
+    idrows = []
     nfun = 0
     for pkg, mods in FILES:
         d = os.path.join(REPO, 'petl', pkg)
@@ -68,6 +91,7 @@ def generate():
                     if isinstance(n, ast.FunctionDef):
                         nfun += 1
                         rows.extend(sites_in(n, '%s.%s.%s%s' % (pkg, m, pre, n.name)))
+                        idrows.extend(identity_sites(n, '%s.%s.%s%s' % (pkg, m, pre, n.name)))
                         visit(n.body, pre + n.name + '.')
                     elif isinstance(n, ast.ClassDef):
                         visit(n.body, pre + n.name + '.')
@@ -78,9 +102,13 @@ def generate():
              '/-- (function, parameter, the expression that tests it by truthiness) -/',
              'def truthinessSites : List (String × String × String) := [']
     lines.append(',\n'.join('  ("%s", "%s", "%s")' % (q, p, esc(e)) for q, p, e in rows))
+    idrows = sorted(set(idrows))
+    lines += [']', '', '/-- (function, parameter, the expression that compares it by identity) -/',
+              'def identitySites : List (String × String × String) := [']
+    lines.append(',\n'.join('  ("%s", "%s", "%s")' % (q, p, esc(e)) for q, p, e in idrows))
     lines += [']', '', 'end Petl.Gen', '']
     changed = write_if_changed('ArgForms.lean', '\n'.join(lines))
-    return {'functions': nfun, 'sites': rows, 'changed': changed}
+    return {'functions': nfun, 'sites': rows, 'identity_sites': idrows, 'changed': changed}
 
 
 if __name__ == '__main__':
@@ -88,3 +116,4 @@ if __name__ == '__main__':
     print(r['functions'], 'functions')
     for s in r['sites']:
         print(s)
+    print('identity:', r['identity_sites'])
